@@ -179,6 +179,10 @@ func addTarget(graph *core.BuildGraph, m targetMap, target *core.BuildTarget) {
 	for _, dep := range target.Dependencies() {
 		addTarget(graph, m, dep)
 	}
+	// A hidden target only exists as part of the rule that generates it, so that rule has to stay too.
+	if target.Label.HasParent() {
+		addTarget(graph, m, graph.Target(target.Label.Parent()))
+	}
 	if target.Subrepo != nil && target.Subrepo.Target != nil {
 		addTarget(graph, m, target.Subrepo.Target)
 	}
